@@ -16,7 +16,10 @@ var MaxIntrospectionDepth = Rule{
 		// returns `true` if the limit has been reached.
 		observers.OnField(func(walker *Walker, field *ast.Field) {
 			if field.Name == "__schema" || field.Name == "__type" {
-				visitedFragments := make(map[string]bool)
+				visitedFragments := &depthSearch{
+					onPath:  make(map[string]bool),
+					checked: make(map[fragmentAtDepth]bool),
+				}
 				if checkDepthField(field, visitedFragments, 0) {
 					addError(
 						Message(`Maximum introspection depth exceeded`),
@@ -29,7 +32,24 @@ var MaxIntrospectionDepth = Rule{
 	},
 }
 
-func checkDepthSelectionSet(selectionSet ast.SelectionSet, visitedFragments map[string]bool, depth int) bool {
+// depthSearch is the state of one search below an introspection root field.
+type depthSearch struct {
+	// fragments on the current path, to stop at fragment cycles
+	onPath map[string]bool
+	// fragments that were already searched, without success, when entered at a given
+	// depth. Without this a fragment that is reachable along many paths is searched once
+	// per path, which takes time exponential in the number of fragments. (For documents
+	// without fragment cycles the outcome does not depend on the path; documents with
+	// cycles are rejected by `NoFragmentCyclesRule` anyway.)
+	checked map[fragmentAtDepth]bool
+}
+
+type fragmentAtDepth struct {
+	name  string
+	depth int
+}
+
+func checkDepthSelectionSet(selectionSet ast.SelectionSet, visitedFragments *depthSearch, depth int) bool {
 	for _, child := range selectionSet {
 		if field, ok := child.(*ast.Field); ok {
 			if checkDepthField(field, visitedFragments, depth) {
@@ -50,7 +70,7 @@ func checkDepthSelectionSet(selectionSet ast.SelectionSet, visitedFragments map[
 	return false
 }
 
-func checkDepthField(field *ast.Field, visitedFragments map[string]bool, depth int) bool {
+func checkDepthField(field *ast.Field, visitedFragments *depthSearch, depth int) bool {
 	if field.Name == "fields" ||
 		field.Name == "interfaces" ||
 		field.Name == "possibleTypes" ||
@@ -63,9 +83,9 @@ func checkDepthField(field *ast.Field, visitedFragments map[string]bool, depth i
 	return checkDepthSelectionSet(field.SelectionSet, visitedFragments, depth)
 }
 
-func checkDepthFragmentSpread(fragmentSpread *ast.FragmentSpread, visitedFragments map[string]bool, depth int) bool {
+func checkDepthFragmentSpread(fragmentSpread *ast.FragmentSpread, visitedFragments *depthSearch, depth int) bool {
 	fragmentName := fragmentSpread.Name
-	if visited, ok := visitedFragments[fragmentName]; ok && visited {
+	if visitedFragments.onPath[fragmentName] {
 		// Fragment cycles are handled by `NoFragmentCyclesRule`.
 		return false
 	}
@@ -74,15 +94,23 @@ func checkDepthFragmentSpread(fragmentSpread *ast.FragmentSpread, visitedFragmen
 		// Missing fragments checks are handled by `KnownFragmentNamesRule`.
 		return false
 	}
+	key := fragmentAtDepth{fragmentName, depth}
+	if visitedFragments.checked[key] {
+		return false
+	}
 
 	// Rather than following an immutable programming pattern which has
 	// significant memory and garbage collection overhead, we've opted to
 	// take a mutable approach for efficiency's sake. Importantly visiting a
 	// fragment twice is fine, so long as you don't do one visit inside the
 	// other.
-	visitedFragments[fragmentName] = true
-	defer delete(visitedFragments, fragmentName)
-	return checkDepthSelectionSet(fragment.SelectionSet, visitedFragments, depth)
+	visitedFragments.onPath[fragmentName] = true
+	defer delete(visitedFragments.onPath, fragmentName)
+	if checkDepthSelectionSet(fragment.SelectionSet, visitedFragments, depth) {
+		return true
+	}
+	visitedFragments.checked[key] = true
+	return false
 }
 
 func init() {
